@@ -485,6 +485,97 @@ def run_spawn_lookup(chk, exe, tier, broken, model_ok):
     chk.coverage["spawn_export_tables"] = {"cases": len(cases), "shapes": hist, "lookalike_names": len(LOOKALIKES)}
 
 
+def spawnm_line(tables, callers, argbase, child_first=False):
+    t = "".join(f" {len(names)}" + "".join(" " + wp.hexs(n.encode()) for n in names) for names in tables)
+    return f"spawnm {1 if child_first else 0} {argbase} {len(tables)}{t} {len(callers)}" + "".join(f" {c}" for c in callers)
+
+
+def spawnm_expected(tables, callers, argbase):
+    """The property over a history of thread-spawn calls by SEVERAL instances of one process: each call looks up the FIRST
+    export named exactly wasi_thread_start in the CALLING instance's table; none → negative value, nothing started;
+    otherwise a fresh id (1, 2, … over the whole process) and ONE start of that export's function on a fresh child
+    of the calling instance with (id, arg)."""
+    rets, ran, nid = [], [], 1
+    for j, who in enumerate(callers):
+        idx = next((i for i, n in enumerate(tables[who]) if n == EXACT), None)
+        if idx is None:
+            rets.append("-1")
+        else:
+            rets.append(str(nid))
+            ran.append(f"{who}:{who}:{idx}:{nid}:{argbase + j}:1")
+            nid += 1
+    return f"ret {','.join(rets) or '-'} ran {','.join(ran) or '-'} children {nid - 1}"
+
+
+def describe_spawnm(tables, callers):
+    names = "abcdefgh"
+    t = "; ".join(f"m{names[i]} exports {tb!r}" for i, tb in enumerate(tables))
+    return f"instances {t}; calls in the order {', '.join('m' + names[c] for c in callers)}"
+
+
+def run_spawn_multi(chk, exe, tier, broken, model_ok):
+    """thread-spawn histories over several module instances (several `w2c2 -m` modules) in one process, interleaved"""
+    rng = chk.rng
+    own = ["_start", EXACT]
+    none_ = ["_start", "main"]
+    look = ["wasi_thread_start_hook", "wasi_thread_star", "memory"]
+    own2 = ["wasi_thread_start2", "x", EXACT, EXACT]
+    hs = [
+        ([own, none_, own2], [1, 0, 1, 2, 0, 2]),           # mb (no export) first, then interleaved with two exporting modules
+        ([own, none_], [0, 1]),                             # exporting module first, then the one without
+        ([none_, own], [0, 1, 0]),
+        ([own, own2], [0, 1, 1, 0]),                        # two modules with their own wasi_thread_start
+        ([own2, own], [0, 1]),
+        ([own, look], [0, 1, 0, 1]),                        # look-alike names only
+        ([look, none_, []], [0, 1, 2, 0]),                  # nobody exports it
+        ([own, [], own], [0, 1, 2, 1]),                     # an empty export table between two exporting ones
+        ([own], [0, 0, 0]),                                 # one instance (the usual program)
+        ([none_, look, own, own2], [2, 0, 1, 3, 0, 1, 2, 3]),
+    ]
+    pool = [own, none_, look, own2, [], [EXACT], ["main", "wasi_thread_start_", EXACT], ["WASI_THREAD_START"]]
+    for _ in range(14 if tier == "quick" else 300):
+        m = rng.randrange(2, 5)
+        tb = [rng.choice(pool) if rng.random() < 0.7 else [rng.choice(LOOKALIKES + [EXACT, EXACT]) for _ in range(rng.randrange(0, 4))] for _ in range(m)]
+        if sum(len(x) for x in tb) > 15:
+            continue
+        hs.append((tb, [rng.randrange(m) for _ in range(rng.randrange(2, 11))]))
+    cases = [(tb, callers, rng.choice([0, 7, 5000]), cf) for tb, callers in hs for cf in (False, True)]
+    lines = [spawnm_line(*c) for c in cases]
+    real = wp.batch_once(exe, lines)
+    model = vlib.DriverProc(PATHSDRIVER).batch(lines) if model_ok else None
+    hist = {"histories": len(cases), "calls": 0, "calls_by_instance_without_export_after_a_successful_spawn": 0,
+            "calls_by_second_exporting_instance": 0, "instances_max": max(len(c[0]) for c in cases)}
+    for i, (tb, callers, argbase, cf) in enumerate(cases):
+        exp = spawnm_expected(tb, callers, argbase)
+        r = real[i]
+        has = [EXACT in t for t in tb]
+        seen_ok = None
+        for c in callers:
+            hist["calls"] += 1
+            if seen_ok is not None and not has[c]:
+                hist["calls_by_instance_without_export_after_a_successful_spawn"] += 1
+            if seen_ok is not None and has[c] and c != seen_ok:
+                hist["calls_by_second_exporting_instance"] += 1
+            if has[c] and seen_ok is None:
+                seen_ok = c
+        chk.count_case(lines[i], True, {"history": describe_spawnm(tb, callers), "real": r[:100], "model": model[i][:100] if model else None} if i % 9 == 0 else None)
+        if r != exp:
+            rr, ee = r.split(" ran ")[0], exp.split(" ran ")[0]
+            if r.startswith("crash"):
+                key, why = "spawn-multi-crash", "the history crashed"
+            elif rr != ee:
+                key, why = "spawn-multi-instance-ids", ("the returned values differ: a call by an instance WITHOUT a wasi_thread_start export must return a negative value and start nothing, "
+                                                        "every other call a fresh positive id")
+            else:
+                key, why = "spawn-multi-instance-wrong-start-function", "a thread ran the start function of ANOTHER instance (or on a child of another instance) instead of the calling instance's own wasi_thread_start"
+            chk.violation(key, f"thread-spawn history over several instances in one process ({describe_spawnm(tb, callers)}; start args {argbase}…; schedule: {'new thread runs to completion first' if cf else 'spawner continues first'}): "
+                          f"{why}; real `{r[:200]}`, required `{exp[:200]}` (format: returned values; `ran callerInstance:entryInstance:entryExport#:tid:arg:childOfCaller`)",
+                          {"kind": "spawnm", "tables": tb, "callers": callers, "argbase": argbase, "child_first": cf, "line": lines[i], "real": r, "expected": exp}, True)
+        if model is not None and model[i] != r and not (model[i].startswith("ub useAfterFree") and r.startswith("crash child asan:heap-use-after-free")):
+            broken.append({"kind": "correspondence", "msg": f"thread-spawn multi-instance history {describe_spawnm(tb, callers)} child_first={cf}: real `{r[:120]}` model `{model[i][:120]}`"})
+    chk.coverage["spawn_multi_instance"] = hist
+
+
 def newchild_shares_memory(repo):
     """Source-level check for the one fact the spawn model takes from w2c2/c.c: NewChild calls
     InitMemories(child, self), and InitMemories takes a shared memory from `parent` when given."""
@@ -527,6 +618,7 @@ def run(tier):
         run_exit(chk, h, tier, broken, model_ok)
         run_spawn(chk, h, tier, broken, model_ok)
         run_spawn_lookup(chk, exe, tier, broken, model_ok)
+        run_spawn_multi(chk, exe, tier, broken, model_ok)
         if not newchild_shares_memory(repo):
             broken.append({"kind": "correspondence", "msg": "w2c2/c.c: NewChild no longer calls InitMemories(child, self) / InitMemories no longer takes shared memories from the parent"})
         chk.coverage["harness_crashes"] = h.crashes
@@ -595,6 +687,10 @@ def replay(path):
             out = h.ask(spawnx_line(r["exports"], r["calls"], r["argbase"], r.get("child_first", False)))
             print(f"replay thread-spawn x{r['calls']} with function exports {r['exports']!r}: real `{out[:200]}`, required `{r['expected'][:200]}`")
             rc = 0 if out == r["expected"] else 1
+        elif kind == "spawnm":
+            out = h.ask(spawnm_line(r["tables"], r["callers"], r["argbase"], r.get("child_first", False)))
+            print(f"replay thread-spawn history over {len(r['tables'])} instances in one process ({describe_spawnm(r['tables'], r['callers'])}):\n  real     `{out[:300]}`\n  required `{r['expected'][:300]}`\n  (returned values; ran callerInstance:entryInstance:entryExport#:tid:arg:childOfCaller)")
+            rc = 0 if out == r["expected"] else 1
         elif kind == "argsx":
             out = h.ask(r["line"])
             print(f"replay wasiInit(argc={r['argc']}, argv={'NULL' if r['argv'] is None else str(len(r['argv'])) + ' strings + NULL'}) + args_sizes_get/args_get: real `{out[:120]}`, required `{r['expected'][:120]}`")
@@ -603,11 +699,13 @@ def replay(path):
             # a concurrent run: the interleaving differs from run to run, so it is repeated and additionally run under the
             # schedule "every new thread finishes before its spawner continues" (legal, and deterministic)
             rc = 0
-            print("replay of a concurrent thread-spawn run: 3 free-running attempts, then the same run under the child-runs-first schedule; one failing run reproduces the violation")
-            for attempt, line in enumerate([r["line"]] * 3 + [r["line"] + " 1"], 1):
+            print("replay of a concurrent thread-spawn run: the interleaving is the host scheduler's, so the run is repeated (up to 60 free-running attempts, then "
+                  "once under the child-runs-first schedule); one failing run reproduces the violation")
+            for attempt, line in enumerate([r["line"]] * 60 + [r["line"] + " 1"], 1):
                 out = h.ask(line)
                 ok = out == r["expected"]
-                print(f"replay attempt {attempt}/4 `{line}`: real `{out[:160]}`" + ("" if ok else f" — required `{r['expected'][:160]}`"))
+                if not ok or attempt in (1, 60, 61):
+                    print(f"replay attempt {attempt}/61 `{line}`: real `{out[:160]}`" + ("" if ok else f" — required `{r['expected'][:160]}`"))
                 if not ok:
                     rc = 1
                     break
